@@ -160,6 +160,34 @@ impl SessionEngine {
         true
     }
 
+    /// Verification only: the run `spawn_session` would hand to the executor, awaited by the caller instead
+    /// (no started-guard, no `tokio::spawn`): a step scheduler drives several runs, each on its own OS thread,
+    /// through the `sess.*` / `log.*` / `cont.*` points (property C01).
+    #[cfg(rip_verif)]
+    pub(crate) async fn verif_run_session_inline(
+        &self,
+        handle: SessionHandle,
+        input: String,
+        continuity: Option<ContinuityRunLink>,
+    ) {
+        run_session(SessionContext {
+            runtime: self.runtime.clone(),
+            tool_runner: self.tool_runner.clone(),
+            workspace_lock: self.workspace_lock.clone(),
+            http_client: self.http_client.clone(),
+            openresponses: self.openresponses.clone(),
+            sender: handle.sender.clone(),
+            events: handle.events.clone(),
+            event_log: self.event_log.clone(),
+            snapshot_dir: self.snapshot_dir.clone(),
+            continuities: self.continuity_store.clone(),
+            continuity_run: continuity,
+            server_session_id: handle.session_id.clone(),
+            input,
+        })
+        .await;
+    }
+
     pub fn cancel_session(sessions: &mut HashMap<String, SessionHandle>, session_id: &str) -> bool {
         sessions.remove(session_id).is_some()
     }
